@@ -272,6 +272,121 @@ theorem tie_sqlx :
     ∧ sqlxQueryRowsBreaker = ["db.brk.DoWithAcceptableCtx(…, func(err error) bool { return scanFailed || db.acceptable(err) })"]
     ∧ sqlxIsScanFailedStmts = ["return err != nil && !errors.Is(err, context.DeadlineExceeded)"] := ⟨rfl, rfl, rfl, rfl, rfl, rfl⟩
 
+/-! ### semantic tie: the predicates and decisions of the call sites, translated to Lean functions
+
+The extractor turns every Go predicate over an error into a function of `isNil`, `is` (errors.Is / errorx.In),
+`as` (errors.As), `call` (another predicate applied to the same error), `nilv` (`x == nil` of a field), `bv` (a bool
+variable) and `code` (`status.Code(err) == C`).  Instantiated with the model's meaning of the error classes they are
+equal to the model's predicates for ALL errors. -/
+
+def noS : String → Bool := fun _ => false
+
+/-- orm.go `isScanFailed` -/
+theorem tie_predIsScanFailed (e : ErrClass) :
+    predIsScanFailed (e = .none) e.is e.as noS noS noS noS = isScanFailed e := by
+  cases e <;> simp [predIsScanFailed, isScanFailed, ErrClass.is]
+
+/-- the scanner wrappers of `commonSqlConn.queryRows` and `statement.queryRows`: `scanFailed` (declared `var scanFailed
+bool`, i.e. false) becomes true iff `isScanFailed` holds of what the scanner returned, and is assigned nowhere else -/
+theorem tie_scanFailedAssignment (prev : Bool) (e : ErrClass) :
+    assignQueryRowsScanFailed (e = .none) e.is e.as (fun n => n = "isScanFailed" && isScanFailed e) noS
+        (fun n => n = "scanFailed" && prev) noS = scanFailedAfter prev e
+    ∧ assignStmtQueryRowsScanFailed (e = .none) e.is e.as (fun n => n = "isScanFailed" && isScanFailed e) noS
+        (fun n => n = "scanFailed" && prev) noS = scanFailedAfter prev e
+    ∧ sqlxQueryRowsVars = ["var scanFailed bool"] ∧ sqlxStmtQueryRowsVars = ["var scanFailed bool"] := by
+  refine ⟨?_, ?_, rfl, rfl⟩ <;>
+    simp [assignQueryRowsScanFailed, assignStmtQueryRowsScanFailed, scanFailedAfter]
+
+/-- `commonSqlConn.acceptable`, for every value of the field `accept` -/
+theorem tie_predDbAcceptable (acc : Option (ErrClass → Bool)) (e : ErrClass) :
+    predDbAcceptable (e = .none) e.is e.as (fun n => n = "db.accept" && (match acc with | some f => f e | none => false))
+        (fun n => n = "db.accept" && acc.isNone) noS noS = dbAcceptable acc e := by
+  cases acc <;> cases e <;> simp [predDbAcceptable, dbAcceptable, optEval, ErrClass.is, ErrClass.as]
+
+/-- the predicates the sqlx operations hand to the breaker: `queryRows` (connection and statement):
+`scanFailed || <db.acceptable>`; `statement.ExecCtx`: `s.accept(err)`; and `PrepareCtx` builds the statement with the
+connection's own breaker and `db.acceptable` -/
+theorem tie_sqlxPreds (q : SiteReq) :
+    predQueryRows (q.err = .none) q.err.is q.err.as (fun n => n = "db.acceptable" && sqlAcceptable q) noS
+        (fun n => n = "scanFailed" && scanFailedVar q) noS = Site.sqlxQuery.pred q
+    ∧ predStmtQueryRows (q.err = .none) q.err.is q.err.as (fun n => n = "s.accept" && sqlAcceptable q) noS
+        (fun n => n = "scanFailed" && scanFailedVar q) noS = Site.sqlxQuery.pred q
+    ∧ predStmtExec (q.err = .none) q.err.is q.err.as (fun n => n = "s.accept" && sqlAcceptable q) noS noS noS = Site.sqlx.pred q
+    ∧ sqlxPrepareStatementFields = ["query: query", "stmt: st", "brk: db.brk", "accept: db.acceptable"]
+    ∧ sqlxStmtExecBreaker = ["s.brk.DoWithAcceptableCtx(…, func(err error) bool { return s.accept(err) })"]
+    ∧ sqlxStmtQueryRowsBreaker = ["s.brk.DoWithAcceptableCtx(…, func(err error) bool { return scanFailed || s.accept(err) })"] := by
+  refine ⟨?_, ?_, ?_, rfl, rfl, rfl⟩ <;> simp [predQueryRows, predStmtQueryRows, predStmtExec, Site.pred]
+
+/-- `WithAcceptable`: first option stored as is, later ones chained as `pre(err) || acceptable(err)` over the
+connection's previous predicate (`withAcceptable`) -/
+theorem tie_withAcceptable (pre p : ErrClass → Bool) (e : ErrClass) :
+    (match withAcceptable (some pre) p with
+      | some f => f e | none => false) =
+      predWithAcceptableChain (e = .none) e.is e.as (fun n => if n = "pre" then pre e else n = "acceptable" && p e) noS noS noS
+    ∧ (match withAcceptable none p with | some f => f e | none => false) = p e
+    ∧ sqlxWithAcceptableStmts.drop 1 = ["if conn.accept == nil", "conn.accept = acceptable", "pre := conn.accept",
+        "conn.accept = func(err error) bool { return pre(err) || acceptable(err) }", "return pre(err) || acceptable(err)"] := by
+  refine ⟨?_, rfl, rfl⟩
+  simp [withAcceptable, predWithAcceptableChain]
+
+/-- redis `acceptable` -/
+theorem tie_predRedisAcceptable (e : ErrClass) :
+    predRedisAcceptable (e = .none) e.is e.as noS noS noS noS = Site.redisProcess.pred { err := e }
+    ∧ Site.redisPipeline.pred { err := e } = Site.redisProcess.pred { err := e } := by
+  refine ⟨?_, rfl⟩
+  cases e <;> simp [predRedisAcceptable, Site.pred, ErrClass.is]
+
+/-- zrpc/internal/codes `Acceptable`: for every code number -/
+theorem tie_predCodesAcceptable (c : Nat) :
+    predCodesAcceptable false noS noS noS noS noS (fun n => codeOfName n = some c) = codeAcceptable c := by
+  simp only [predCodesAcceptable, codeAcceptable, codeOfName, cDeadlineExceeded, cInternal, cUnavailable, cDataLoss,
+    cUnimplemented, cResourceExhausted]
+  simp
+  by_cases h4 : c = 4 <;> by_cases h13 : c = 13 <;> by_cases h14 : c = 14 <;> by_cases h15 : c = 15 <;>
+    by_cases h12 : c = 12 <;> by_cases h8 : c = 8 <;> simp_all <;> omega
+
+/-- `serverSideAcceptable` -/
+theorem tie_predServerSideAcceptable (e : ErrClass) :
+    predServerSideAcceptable (e = .none) e.is e.as (fun n => n = "codes.Acceptable" && codeAcceptable e.grpcCode) noS noS noS
+      = Site.zrpcServerUnary.pred { err := e }
+    ∧ Site.zrpcServerStream.pred { err := e } = Site.zrpcServerUnary.pred { err := e } := by
+  refine ⟨?_, rfl⟩
+  cases e <;> simp [predServerSideAcceptable, Site.pred, ErrClass.is]
+
+/-- `defaultAcceptable` -/
+theorem tie_predDefaultAcceptable (o : Outcome) :
+    predDefaultAcceptable (o = .ok) noS noS noS noS noS noS = acceptable false o := by
+  cases o <;> simp [predDefaultAcceptable, acceptable]
+
+/-- rest: Accept iff `cw.Code < http.StatusInternalServerError` (= 500, pinned by the harness with 499 / 500) -/
+theorem tie_restAcceptCond (code : Nat) :
+    restAcceptCond code 500 = Site.rest.pred { code := code } := by
+  simp [restAcceptCond, Site.pred]
+  constructor <;> intro h <;> omega
+
+/-- the three decisions of `accept()` and the comparison of `TrueOnProba`, as translated, compose to `acceptPath`
+(comparison operators, constants and the order of the tests), for all values -/
+theorem tie_acceptPath (lastPass now : Nat) (dr0 dr1 u : Rat) :
+    acceptPath lastPass now (decide (0 < dr0)) (decide (u < dr1)) =
+      if acceptCondFree dr0 then .free
+      else if acceptCondForced lastPass (since lastPass now) then .forced
+      else if trueOnProbaCond u dr1 then .drawnDrop else .drawnPass := by
+  unfold acceptPath acceptCondFree acceptCondForced trueOnProbaCond since forcePassDuration forcePassNs
+  by_cases h0 : 0 < dr0
+  · have h0' : ¬ dr0 ≤ 0 := Rat.not_le.mpr h0
+    by_cases hf : lastPass > 0 ∧ now - lastPass > 1000000000
+    · have : (lastPass : Int) > 0 ∧ (now : Int) - (lastPass : Int) > 1000000000 := by omega
+      simp [h0, h0', hf, this]
+    · have : ¬ ((lastPass : Int) > 0 ∧ (now : Int) - (lastPass : Int) > 1000000000) := by omega
+      by_cases hu : u < dr1 <;> simp [h0, h0', hf, hu] <;> omega
+  · have h0' : dr0 ≤ 0 := Rat.not_lt.mp h0
+    simp [h0, h0']
+
+/-- `updateOffset` returns early iff `span <= 0` (`RW.updateOffset`: iff the model's span is 0) -/
+theorem tie_rwUpdateOffsetSkip (w : RW) (now : Nat) :
+    rwUpdateOffsetSkip (w.span now) = decide (w.span now = 0) := by
+  simp [rwUpdateOffsetSkip]
+
 /-- breakers.go: `GetBreaker` looks the name up, creates `NewBreaker(WithName(name))` only when absent and stores it
 under that very name (`Registry.get`); every package-level `Do*` forwards to the method of the same name of
 `GetBreaker(name)` with its arguments unchanged (`Registry.with`). -/
